@@ -38,7 +38,8 @@ class Pool:
         self.m = m
         self.tables = {"G7": [dict(p) for p in m.TableG7]}
         a1 = m.Ammo(m.DragModel(0.25, m.TableG7, U.Grain(168), U.Inch(0.308), U.Inch(1.22)), U.FPS(2650), U.Celsius(15), 0.012, True)
-        a2 = m.Ammo(m.DragModel(0.4, m.TableG1), U.FPS(2400))
+        # a2's table is a band-limited one: it ends (Mach 1.8) BELOW the launch Mach number of its load (about 2.15)
+        a2 = m.Ammo(m.DragModel(0.4, [dict(p_) for p_ in m.TableG1 if p_["Mach"] <= 1.8]), U.FPS(2400))
         w1 = m.Weapon(U.Inch(2.0), U.Inch(10.0))
         w2 = m.Weapon(U.Inch(3.0), U.Inch(-12.0), sight=m.Sight("FFP", U.Yard(100), U.Mil(0.1), U.Mil(0.1)))
         self.weapons = {"w1": w1, "w2": w2}
